@@ -4,6 +4,7 @@ package main
 
 import (
 	"fmt"
+	"go/token"
 	"go/types"
 	"sort"
 	"strings"
@@ -13,10 +14,10 @@ import (
 
 // map fields of structs without their own mutex: the lock that owns them
 var mapOwnerTable = map[string]string{
-	"hotline.ThreadedNews.Categories":           "mobius.ThreadedNewsYAML.mu",
-	"hotline.NewsCategoryListData15.Articles":   "mobius.ThreadedNewsYAML.mu",
-	"hotline.NewsCategoryListData15.SubCats":    "mobius.ThreadedNewsYAML.mu",
-	"hotline.PrivateChat.ClientConn":            "hotline.MemChatManager.mu",
+	"hotline.ThreadedNews.Categories":         "mobius.ThreadedNewsYAML.mu",
+	"hotline.NewsCategoryListData15.Articles": "mobius.ThreadedNewsYAML.mu",
+	"hotline.NewsCategoryListData15.SubCats":  "mobius.ThreadedNewsYAML.mu",
+	"hotline.PrivateChat.ClientConn":          "hotline.MemChatManager.mu",
 }
 
 // map fields that are written during set-up only (never from a goroutine started by the server)
@@ -554,6 +555,7 @@ func checkC03(R *Run) {
 			return found
 		}
 		nInc := 0
+		nTable := 0
 		for _, fn := range P.Funcs {
 			for _, b := range fn.Blocks {
 				for i, ins := range b.Instrs {
@@ -567,6 +569,48 @@ func checkC03(R *Run) {
 					}
 					if _, isDefer := ins.(*ssa.Defer); isDefer {
 						continue
+					}
+					// keys that are not constants (taken from a table): the very next call must be a deferred Decrement
+					// of one of the same values (compared as expressions: the same field of the same table entry)
+					for _, a := range callArgsFlat(ci.Common()) {
+						if _, isC := constInt(a); isC {
+							continue
+						}
+						key := cellSym(P, a)
+						var nextDefer *ssa.Defer
+						for j := i + 1; j < len(b.Instrs); j++ {
+							if _, isCall := b.Instrs[j].(ssa.CallInstruction); isCall {
+								nextDefer, _ = b.Instrs[j].(*ssa.Defer)
+								break
+							}
+						}
+						if nextDefer == nil {
+							continue // a pure counter among the keys (or no defer at all: decided by the other keys)
+						}
+						found := false
+						check := func(c *ssa.CallCommon) {
+							dn := calleeName(c)
+							if dn == "(hotline.Counter).Decrement" || dn == "(*hotline.Stats).Decrement" {
+								for _, a2 := range callArgsFlat(c) {
+									if cellSym(P, a2) == key {
+										found = true
+									}
+								}
+							}
+						}
+						check(&nextDefer.Call)
+						for _, t := range P.callees(nextDefer) {
+							for g := range P.reachFuncs(t) {
+								for _, cj := range callsIn(g) {
+									check(cj.Common())
+								}
+							}
+						}
+						if found {
+							nInc++
+							nTable++
+							R.ok("pairing", fmt.Sprintf("%s: gauge %s incremented #%d", fname(fn), key, nInc), P.ipos(ins), "next call is a defer that decrements the same table value")
+						}
 					}
 					for _, a := range callArgsFlat(ci.Common()) {
 						k, isC := constInt(a)
@@ -604,7 +648,8 @@ func checkC03(R *Run) {
 				}
 			}
 		}
-		if nInc < 5 {
+		// (one table-driven increment stands for all the entries of its table)
+		if nInc < 5 && !(nTable > 0 && nInc >= 2) {
 			R.bad("pairing", "gauge increments", "-", fmt.Sprintf("%d gauge increments found, 5 confirmed on the reference tree", nInc))
 		}
 		// transfer deletion
@@ -921,4 +966,34 @@ func describePanicSite(ins ssa.Instruction) string {
 		return "explicit panic"
 	}
 	return "operation that can panic"
+}
+
+// cellSym renders a value for comparison between a function and a closure it creates: loads of a captured variable
+// are named by the variable, not by the (different) SSA values on the two sides.
+func cellSym(P *Prog, v ssa.Value) string {
+	v = stripConv(v)
+	switch x := v.(type) {
+	case *ssa.Field:
+		n, _ := fieldOf(x)
+		return cellSym(P, x.X) + "." + shortField(n)
+	case *ssa.UnOp:
+		if x.Op == token.MUL {
+			switch a := x.X.(type) {
+			case *ssa.FieldAddr:
+				n, _ := fieldOf(a)
+				return cellSym(P, a.X) + "." + shortField(n)
+			case *ssa.Alloc:
+				return "var:" + a.Comment
+			case *ssa.FreeVar:
+				return "var:" + a.Name()
+			}
+		}
+	case *ssa.Alloc:
+		return "var:" + x.Comment
+	case *ssa.FreeVar:
+		return "var:" + x.Name()
+	case *ssa.Extract:
+		return cellSym(P, x.Tuple) + fmt.Sprintf("#%d", x.Index)
+	}
+	return P.sym(v)
 }
